@@ -2,6 +2,7 @@
 // inverses + standard formats.  pbt cases and a bounded-exhaustive enumerator (all byte strings
 // up to length 2 / 3) share the same oracles.
 #include "common/vf.hpp"
+#include "common/callers.hpp"
 #include <cerrno>
 #include <sys/mman.h>
 extern "C" {
@@ -29,7 +30,7 @@ bool ref_selftest() {
 bool forbidden_literal(unsigned char ch) { return ch <= 0x20 || ch >= 0x7f || strchr("%+&=?#\"<>", ch) != nullptr; }
 int hexval(char ch) { return ch >= '0' && ch <= '9' ? ch - '0' : ch >= 'a' && ch <= 'f' ? ch - 'a' + 10 : ch >= 'A' && ch <= 'F' ? ch - 'A' + 10 : -1; }
 
-struct Counters { uint64_t url = 0, b64 = 0, hex = 0; } g_cnt;
+struct Counters { std::atomic<uint64_t> url{0}, b64{0}, hex{0}; } g_cnt;
 
 // exact-size heap copy of a C string (decoders work in place)
 struct CStr { char *p; size_t n; CStr(const std::string &s) { n = s.size(); p = new char[n + 1]; memcpy(p, s.data(), n); p[n] = 0; } ~CStr() { delete[] p; } };
@@ -139,14 +140,34 @@ void check_query(Src &s, Ctx &c) {
 }
 }  // namespace
 
+static bool g_conc_only = false;
 bool vf_configure(Ctx &c) {
     if (c.mode != "C16") return false;
     c.deciding = FUNC | CRASH | HANG; c.noteonly = MEM | LEAK;
     if (!ref_selftest()) { fprintf(stderr, "reference Base64 encoder fails the RFC 4648 vectors\n"); exit(2); }
+    g_conc_only = getenv("VF_CONC_ONLY") != nullptr;
     return true;
 }
 
 void run_case(Src &s, Ctx &c) {
+    if (g_conc_only || s.chance(1, 16)) {
+        // concurrent callers: 2..4 threads, each round-tripping private byte strings through 1..3 codecs
+        size_t nth = (size_t)s.range(2, 4); int rounds = (int)s.range(10, 100);
+        std::vector<std::vector<Job>> jobs(nth);
+        for (size_t i = 0; i < nth; i++) {
+            int nj = (int)s.range(1, 3);
+            for (int j = 0; j < nj; j++) {
+                std::string x = gen_bytes(s, 1024, false); int k = (int)s.range(0, 2);
+                c.op("thread %zu: %s round trip + format, %zu bytes: %s", i, k == 0 ? "url" : k == 1 ? "base64" : "hex", x.size(), hexs(x, 16).c_str());
+                jobs[i].push_back([x, k](Ctx &q) { if (k == 0) check_url(q, x); else if (k == 1) check_b64(q, x); else check_hex(q, x); });
+            }
+        }
+        c.op("the %zu threads run their round trips %d times concurrently", nth, rounds);
+        run_concurrent(c, jobs, rounds, "encode");
+        c.check_san("codecs called from several threads");
+        c.nontrivial = true; c.tag("concurrent_callers");
+        return;
+    }
     int tgt = (int)s.pick({3, 3, 3, 3});
     if (tgt == 3) { check_query(s, c); c.tag("query"); return; }
     std::string x = gen_bytes(s, 4096, false);
@@ -198,7 +219,7 @@ bool vf_enumerate(Ctx &c, EnumStats &st) {
     }
     st.states = st.evaluations;
     st.extra["max_length"] = (uint64_t)L;
-    st.extra["url_checked"] = g_cnt.url; st.extra["base64_checked"] = g_cnt.b64; st.extra["hex_checked"] = g_cnt.hex;
+    st.extra["url_checked"] = g_cnt.url.load(); st.extra["base64_checked"] = g_cnt.b64.load(); st.extra["hex_checked"] = g_cnt.hex.load();
     if (g_san_reports) c.tags["sanitizer_reports"] += (uint64_t)g_san_reports;
     return true;
 }
